@@ -225,12 +225,15 @@ func cqStep(o catStepObs, before, after []catEnt, sameView bool) string {
 		f = append(f, tbkFields(o.TBK)...)
 		f = append(f, fileFields(o.Files)...)
 	}
-	if o.Fresh != nil {
-		f = append(f, b01(true), dec(o.Fresh.Code))
+	switch {
+	case o.Fresh == nil:
+		f = append(f, dec(0), dec(0))
+	case fmt.Sprint(o.Fresh.TBK, o.Fresh.Files) == fmt.Sprint(o.TBK, o.Files):
+		f = append(f, dec(2), dec(o.Fresh.Code)) // identical to the catalog's own view
+	default:
+		f = append(f, dec(1), dec(o.Fresh.Code))
 		f = append(f, tbkFields(o.Fresh.TBK)...)
 		f = append(f, fileFields(o.Fresh.Files)...)
-	} else {
-		f = append(f, b01(false), dec(0))
 	}
 	return cqBlob(f)
 }
@@ -238,6 +241,15 @@ func cqStep(o catStepObs, before, after []catEnt, sameView bool) string {
 // catRun performs the request list on a fresh instance; withFresh adds the view of a fresh
 // NewDirectory(root) after every request.  hook (optional) sees every step.
 func catRun(ops []CatOp, withFresh bool, hook func(i int, op CatOp, o *catStepObs)) (obs []catStepObs, coqOps, coqObs []string, err error) {
+	return catRunHook(ops, withFresh, func(_ *catinst.Inst, i int, op CatOp, o *catStepObs) {
+		if hook != nil {
+			hook(i, op, o)
+		}
+	})
+}
+
+// catRunHook is catRun with the instance handed to the hook.
+func catRunHook(ops []CatOp, withFresh bool, hook func(inst *catinst.Inst, i int, op CatOp, o *catStepObs)) (obs []catStepObs, coqOps, coqObs []string, err error) {
 	inst, err := catinst.New()
 	if err != nil {
 		return nil, nil, nil, err
@@ -275,7 +287,7 @@ func catRun(ops []CatOp, withFresh bool, hook func(i int, op CatOp, o *catStepOb
 			o.Fresh = fr
 		}
 		if hook != nil {
-			hook(i, op, &o)
+			hook(inst, i, op, &o)
 		}
 		obs = append(obs, o)
 		coqOps = append(coqOps, cqOp(op, o))
